@@ -376,14 +376,18 @@ def _work(idxs):
             # "holds" for no input at all)
             main = [g for g in goals if g.name.startswith(("value", "linearization", "trace", "param", "arg", "bits", "byte", "vararg", "ret"))] or goals[:1]
             if main and (len(main[0].hyps) <= 30 or hash(p.key) % 5 == 0):
-                vs = z3.Solver()
-                vs.set("timeout", 20000)
-                vs.add(*M.assumes)
-                vs.add(*main[0].hyps)
-                vr = vs.check()
+                vr = z3.unsat
+                for mg in main[:8]:          # some paths are legitimately infeasible under the definedness precondition
+                    vs = z3.Solver()
+                    vs.set("timeout", 20000)
+                    vs.add(*M.assumes)
+                    vs.add(*mg.hyps)
+                    vr = vs.check()
+                    if vr != z3.unsat:
+                        break
                 if vr == z3.unsat:
                     res["status"] = "inconclusive"
-                    res["detail"] = "vacuous: the hypotheses of goal %s are unsatisfiable" % main[0].name
+                    res["detail"] = "vacuous: the hypotheses of every main goal (%s ...) are unsatisfiable" % main[0].name
                     res["secs"] = time.time() - t1
                     results.append(res)
                     continue
